@@ -469,7 +469,14 @@ def _tri():
 
 # widely spaced chains / layers: the only way to keep a supercell larger than twice the interaction range within
 # <= 10 sites (needed by C34, whose barrier model presumes the minimum-image situation)
-LOCAL = {'CHAIN': _chain, 'CHAINAB': _chainab, 'SQLAYER': _sq, 'TRILAYER': _tri}
+def _skewsq():
+    """square layers (a=1, spacing 1.5) described by the skewed cell a1=(1,0,0), a2=(3,1,0): the F9 situation
+    (neighbour search range round(r/|a_i|)+1 too small for skewed noreduce cells) for makeclusters"""
+    from onsager import crystal
+    return crystal.Crystal(np.array([[1., 3., 0.], [0., 1., 0.], [0., 0., 1.5]]), [np.zeros(3)], ['A'], noreduce=True)
+
+
+LOCAL = {'CHAIN': _chain, 'CHAINAB': _chainab, 'SQLAYER': _sq, 'TRILAYER': _tri, 'SKEWSQ': _skewsq}
 
 # name: (catalogue crystal, supercell matrix, spectator species)
 SUPERCELLS = {
